@@ -313,7 +313,18 @@ def describe(sc):
 
 
 def run_scenario(sc, loglevel=None):
-    return Q.run_impl(sc['script'], sc['retries'], sc['delay'], [(rq.op, rq.build) for rq in sc['reqs']], loglevel)
+    # a request kind that occurs more than once in the sequence sends the SAME frame object again
+    cache = {}
+
+    def builder(rq):
+        def b():
+            if sc['reqs'].count(rq) > 1:
+                if id(rq) not in cache:
+                    cache[id(rq)] = rq.build()
+                return cache[id(rq)]
+            return rq.build()
+        return b
+    return Q.run_impl(sc['script'], sc['retries'], sc['delay'], [(rq.op, builder(rq)) for rq in sc['reqs']], loglevel)
 
 
 # ------------------------------------------------------------------ parsing results
